@@ -74,6 +74,18 @@ def owner_of(mode, nodes, routing_key):
     return h.get_node(routing_key)
 
 
+def _coll(rng, items):
+    """the key collection as a list, a tuple, a one-shot generator or an iterator (Iterable[Key] is what the methods take)"""
+    c = rng.randrange(4)
+    if c == 0:
+        return list(items)
+    if c == 1:
+        return tuple(items)
+    if c == 2:
+        return (x for x in items)
+    return iter(list(items))
+
+
 def scenario(res, seed, tier):
     import pymemcache.client.hash as hashmod
     rng = random.Random(seed)
@@ -165,7 +177,7 @@ def scenario(res, seed, tier):
     # 2. multi-key get agrees with per-key gets
     if keys:
         m = marks()
-        got_many = hc.get_many([a for a, _, _ in keys])
+        got_many = hc.get_many(_coll(rng, [a for a, _, _ in keys]))
         at = attribute(new_cmds(m), (b"get",))
         res.count("multi_key_calls_checked")
         for arg, rk, raw in keys:
@@ -280,7 +292,7 @@ def scenario(res, seed, tier):
     # 4. delete_many
     if keys:
         m = marks()
-        r = hc.delete_many([a for a, _, _ in keys])
+        r = hc.delete_many(_coll(rng, [a for a, _, _ in keys]))
         at = attribute(new_cmds(m), (b"delete",))
         res.count("multi_key_calls_checked")
         for arg, rk, raw in keys:
